@@ -116,6 +116,8 @@ pub struct Sim {
     pub start: tokio::time::Instant,
     pub stop_futs: Vec<StopFut>,
     pub paused_cmds: u32,
+    /// acknowledgement futures of pause()/resume(): (future, is_pause)
+    pub ack_futs: Vec<(Pin<Box<dyn Future<Output = ()>>>, bool)>,
     pub o: oracles::OracleState,
 }
 
@@ -743,6 +745,7 @@ async fn sim_main(sh: Rc<Shared>) -> Option<Violation> {
         start: tokio::time::Instant::now(),
         stop_futs: Vec::new(),
         paused_cmds: 0,
+        ack_futs: Vec::new(),
         o: oracles::OracleState::new(&cfg, &prop),
     };
 
@@ -791,6 +794,7 @@ async fn sim_main(sh: Rc<Shared>) -> Option<Violation> {
     let ms = sim.now_ms();
     sh.ctx(|ctx| ctx.sim_ms = ms);
     sim.server = None;
+    sim.ack_futs.clear();
     sim.stop_futs.clear();
     *sh.accept.borrow_mut() = None;
     for w in sh.workers.borrow_mut().iter_mut() {
@@ -875,7 +879,8 @@ async fn exec_action(sim: &mut Sim, a: Action) {
         Action::Settle => sim.settle(),
         Action::Pause => {
             sim.paused_cmds += 1;
-            drop(sim.handle.pause());
+            let f = sim.handle.pause();
+            sim.ack_futs.push((Box::pin(f), true));
             sh.ctx(|ctx| {
                 ev!(ctx, "cmd pause");
                 ctx.bump("cmd.pause");
@@ -883,7 +888,8 @@ async fn exec_action(sim: &mut Sim, a: Action) {
         }
         Action::Resume => {
             sim.paused_cmds += 1;
-            drop(sim.handle.resume());
+            let f = sim.handle.resume();
+            sim.ack_futs.push((Box::pin(f), false));
             sh.ctx(|ctx| {
                 ev!(ctx, "cmd resume");
                 ctx.bump("cmd.resume");
